@@ -490,7 +490,7 @@ func main() {
 	os.MkdirAll(workdir, 0o755)
 	defer os.RemoveAll(workdir)
 	rng := o.Rng()
-	res := hx.NewResult("C06", "oracle: generated clusters (world.Full(): <=7 ingresses sharing 5+3 hosts, 11 paths, 4 services x 3 namespaces, tls, classes, ConfigMap, pods, equal creation stamps; two thirds with conflict-prone annotations: both annotation prefixes, host wide keys on several ingresses / hosts, redirect-from, alias, external auth, oauth, basic auth, tcp) fed to 6 independent fresh real pipelines in permuted event orders, half of them with shuffled List answers; batch cases add one batch of 1..4 changes delivered in permuted event orders (partial sync); behaviours (lib/sem) must be equal. correspondence: real sortIngress / readConfigKeys / Mapper / converter+updater (host redirects) vs coq/Model/Order.v. non-trivial = >= 2 ingresses sharing a host or a backend; distinct by cluster text")
+	res := hx.NewResult("C06", "oracle: generated clusters (world.Full(): <=7 ingresses sharing 5+3 hosts, 11 paths, 4 services x 3 namespaces, tls, classes, ConfigMap, pods, equal creation stamps; two thirds with conflict-prone annotations: both annotation prefixes, host wide keys on several ingresses / hosts, redirect-from, alias, external auth, oauth, basic auth, auth-tls, ssl-passthrough, tcp, strict-host; one case in four dense: 4 hosts x 5 paths, 2-6 such annotations per ingress; one case in six with Gateway API v1 objects: 1-2 Gateways, 1-5 HTTPRoutes of two namespaces sharing hostnames and paths) fed to 6 independent fresh real pipelines in permuted event orders, half of them with shuffled List answers; batch cases add one batch of 1..4 changes delivered in permuted event orders (partial sync); behaviours (lib/sem) must be equal. correspondence: real sortIngress / readConfigKeys / Mapper / AcquireAuthBackendName driven directly, converter+updater+instance through the pipeline (app-root and redirect-from per host, oauth backend lookup, server-alias owner) vs coq/Model/Order.v. non-trivial = >= 2 ingresses sharing a host or a backend; distinct by cluster text")
 	cw := hx.NewCaseWriter(o, res, "From HI Require Import Corr.Corr_C06.", "ccase", 250)
 
 	var cases []ocase
